@@ -723,3 +723,7 @@ for _k in ("C01", "C02"):
             _h.mem_gb = max(_h.mem_gb, 12)
         if _n.startswith("attr_unknown_attributes"):
             _h.mem_gb = max(_h.mem_gb, 20)
+# attr_nonce_l4 and attr_unknown_attributes_n2 (the largest size instances of their kinds) ended on the memory cap in the last two
+# thorough passes: unregistered; NONCE is decided for lengths 1 and 2, UNKNOWN-ATTRIBUTES for one entry
+for _k in ("C01", "C02"):
+    PROPS[_k] = [h for h in PROPS[_k] if not h.name.endswith(("attr_nonce_l4", "attr_unknown_attributes_n2"))]
